@@ -5,7 +5,7 @@ import hashlib
 import json
 import time
 
-from . import core, x_timeout, x_observers
+from . import core, x_timeout, x_observers, x_demux, x_transport
 from .core import Inconclusive
 
 COMMON_ASSUMPTIONS = [
@@ -284,3 +284,140 @@ for _p, _ms in {'C01': [M_U2], 'C02': [M_S1, B_D1, M_S1M2], 'C03': [M_S1, B_D4],
                 'C07': [M_S1, B_D7C, M_S1M2], 'C09': [M_U2RF, B_D5, M_S1RF], 'C10': [M_S1STOP, M_U2STOP, B_D6],
                 'C11': [M_S1, B_D7S, B_D7C, M_S1U1], 'C14': [M_S1, M_U2]}.items():
     PROPS[_p]['models'] = list(PROPS[_p].get('models', [])) + _ms
+
+
+# ---- C18 (demultiplexer) ---------------------------------------------------------
+def _demux_cfg(keys, env, writes, cancels, fixes, props, symmetry=True):
+    inv = ['TypeOK', 'DeliveredOncePerKeyInOrder', 'AnnouncedOncePerIncarnation', 'WritesPassThrough', 'NoCrash']
+    return ('SPECIFICATION Spec\nCHECK_DEADLOCK FALSE\n'
+            + ''.join('INVARIANT %s\n' % i for i in inv if i in props)
+            + ''.join('PROPERTY %s\n' % p for p in props if p not in inv)
+            + ('SYMMETRY Perms\n' if symmetry else '')
+            + 'CONSTANT Keys = {%s}\nCONSTANT MaxEnv = %d\nCONSTANT MaxWrites = %d\nCONSTANT MaxCancel = %d\n'
+              % (', '.join('abc'[:keys]), env, writes, cancels)
+            + 'CONSTANT Fixes = {%s}\n' % ', '.join('"%s"' % f for f in fixes))
+
+
+_DX_SAFE = ['TypeOK', 'DeliveredOncePerKeyInOrder', 'AnnouncedOncePerIncarnation', 'WritesPassThrough', 'NoCrash']
+_DX_ALL = ['DoneR', 'DoneW', 'StopSel']
+
+PROPS['C18'] = dict(
+    gen=x_demux.generate, trace_spec='DemuxTrace.tla', own_attribution=True,
+    rule='raw shared transport: every interleaving of per-key arrival sequences x every consumption order of the logical '
+         'connections (<= 3 keys x <= 2 envelopes; exhaustive in the thorough tier, small shapes exhaustive + sample in quick), '
+         'random sequences over 1..8 keys; Cancel(key) and Stop at each step of 5 base conversations, without and with the run '
+         'loop parked in demux.run.window (between unlock and hand-off), each followed by reads/writes on the old connection and '
+         're-use of the key; logical writers blocked behind a stuck shared writer while Cancel/Stop land; RPC workloads (unary + '
+         'bidi echo) of 1..3 real goat clients multiplexed into one goat.Server with Cancel(client)/Stop at each step (plain, gate '
+         'window, stuck writer); non-trivial = an envelope enters the shared transport or a call is started',
+    nontrivial_ops=['in', 'ucall', 'sopen'],
+    assumptions=COMMON_ASSUMPTIONS + [
+        'the harness shared transport (x_demux.go dxShared, 90 lines) is ordered and exactly-once',
+        'the harness attributes an onNewConnection call to the key most recently computed by the key function '
+        '(the callback does not name the key; Run cannot pass the hand-off of the creating envelope before the callback ran)',
+        'envelope equality is decided on a SHA-256 prefix of the deterministic protobuf encoding computed by the harness',
+    ],
+    models=[
+        dict(name='Demux fixed, safety', spec='Demux.tla', workers=8,
+             cfg=dict(quick=_demux_cfg(3, 3, 1, 1, _DX_ALL, _DX_SAFE),
+                      thorough=_demux_cfg(3, 4, 2, 1, _DX_ALL, _DX_SAFE)),
+             constants='Keys=3 (symmetric), MaxEnv=3|4, MaxWrites=1|2, MaxCancel=1, Fixes=all (quick|thorough)'),
+        dict(name='Demux fixed, safety, read side deep', spec='Demux.tla', workers=8,
+             cfg=dict(quick=_demux_cfg(3, 3, 0, 2, _DX_ALL, _DX_SAFE),
+                      thorough=_demux_cfg(3, 5, 0, 2, _DX_ALL, _DX_SAFE)),
+             constants='Keys=3 (symmetric), MaxEnv=3|5, MaxWrites=0, MaxCancel=2, Fixes=all'),
+        dict(name='Demux fixed, liveness', spec='Demux.tla', workers=8,
+             cfg=dict(quick=_demux_cfg(2, 2, 1, 1, _DX_ALL, ['NoCrash', 'StopEndsRun', 'CancelledOpsFail'], symmetry=False),
+                      thorough=_demux_cfg(2, 3, 1, 1, _DX_ALL, ['NoCrash', 'StopEndsRun', 'CancelledOpsFail'], symmetry=False)),
+             constants='Keys=2, MaxEnv=2|3, MaxWrites=1, MaxCancel=1, Fixes=all, weak fairness of Run and of failing ops'),
+        dict(name='Bug_CloseR (Cancel closes r)', spec='Demux.tla', workers=4, exhaustive=False,
+             cfg=_demux_cfg(2, 2, 1, 1, ['DoneW', 'StopSel'], ['NoCrash'], symmetry=False),
+             constants='Fixes={DoneW,StopSel}', expect_violation='Invariant NoCrash is violated'),
+        dict(name='Bug_CloseW (Cancel closes w)', spec='Demux.tla', workers=4, exhaustive=False,
+             cfg=_demux_cfg(2, 2, 1, 1, ['DoneR', 'StopSel'], ['NoCrash'], symmetry=False),
+             constants='Fixes={DoneR,StopSel}', expect_violation='Invariant NoCrash is violated'),
+        dict(name='Bug_StopIgnored (hand-off ignores Stop)', spec='Demux.tla', workers=4, exhaustive=False,
+             cfg=_demux_cfg(2, 2, 1, 1, ['DoneR', 'DoneW'], ['NoCrash', 'StopEndsRun'], symmetry=False),
+             constants='Fixes={DoneR,DoneW}', expect_violation='Temporal property StopEndsRun was violated'),
+        dict(name='Bug_AsFound (no fix)', spec='Demux.tla', workers=4, exhaustive=False,
+             cfg=_demux_cfg(2, 2, 1, 1, [], ['NoCrash'], symmetry=False),
+             constants='Fixes={}', expect_violation='Invariant NoCrash is violated'),
+    ],
+)
+
+
+# ---- C19 (shipped transports) ---------------------------------------------------------
+# (2) before `PROPS = {`:
+_C19_T = ('SPECIFICATION MCSpec\nINVARIANT InOrderExactlyOnce\nINVARIANT MalformedNeverDelivered\nINVARIANT NothingLost\n'
+          'PROPERTY CtxUnblocks\nCHECK_DEADLOCK FALSE\nCONSTANT Off = {}\n')
+_C19_H = ('SPECIFICATION FairSpec\nINVARIANT NoCrash\nINVARIANT LadderSound\nINVARIANT AtMostOnce\nINVARIANT OkIffDelivered\n'
+          'INVARIANT ReadersCount\nINVARIANT LegitPending\nPROPERTY ReadUnblocks\nPROPERTY ServeUnblocks\nCHECK_DEADLOCK FALSE\n'
+          'CONSTANTS\n Addrs = {"x"}\n Reqs = {1, 2}\n Rdrs = {1}\n Timeout = 2\n Interval = 1\n MaxConns = 2\n')
+_C19_LADDER = _C19_H + (' UseShapes = {"nobody", "unreadable", "undecodable", "nohdr", "nosrc", "maperr", "ok"}\n'
+                        ' Advances = {}\n MaxTime = 0\n Writes = FALSE\n')
+_C19_CLEAN = _C19_H + ' UseShapes = {"ok", "nosrc"}\n Advances = {1, 2}\n MaxTime = 3\n Writes = TRUE\n'
+
+
+def _c19_models():
+    ms = [
+        dict(name='Transport (rendezvous, fixed)', spec='Transport.tla', cfg=_C19_T, workers=8,
+             constants='2 ends, 2 values + 1 malformed input, 3 operations, 1 raw injection, ctx cancellation anywhere'),
+        dict(name='Transport (a done ctx may break the connection: websocket)', spec='Transport.tla',
+             cfg=_C19_T + 'CONSTANT MCBreaks <- MCBreaksYes\n', workers=8,
+             constants='as above, mayBreak = TRUE'),
+    ]
+    for bug, viol in (('Bug_ReadIgnoresCtx', 'CtxUnblocks was violated'), ('Bug_WriteIgnoresCtx', 'CtxUnblocks was violated'),
+                      ('Bug_Duplicate', 'Invariant NothingLost is violated'), ('Bug_Reorder', 'Invariant InOrderExactlyOnce is violated')):
+        ms.append(dict(name='Transport ' + bug, spec='Transport.tla', cfg=_C19_T + 'CONSTANT Bug <- %s\n' % bug, workers=8,
+                       constants=bug + ' re-enabled: TLC must report the violation (search stops at the counter-example)',
+                       expect_violation=viol))
+    ms.append(dict(name='Transport Bug_DeliverMalformed', spec='Transport.tla', workers=8,
+                   cfg='SPECIFICATION MCSpec\nINVARIANT MalformedNeverDelivered\nCHECK_DEADLOCK FALSE\nCONSTANT Off = {}\n'
+                       'CONSTANT Bug <- Bug_DeliverMalformed\n',
+                   constants='Bug_DeliverMalformed re-enabled: TLC must report the violation',
+                   expect_violation='Invariant MalformedNeverDelivered is violated'))
+    ms.append(dict(name='HttpTransport ladder (fixed)', spec='HttpTransport.tla', cfg=_C19_LADDER + ' Bug = {}\n', workers=8,
+                   constants='2 requests x 7 shapes, 1 reader, 1 address, request / reader ctx cancellation anywhere, no clock'))
+    ms.append(dict(name='HttpTransport cleaner (fixed)', spec='HttpTransport.tla', cfg=_C19_CLEAN + ' Bug = {}\n', workers=8,
+                   constants='2 requests x {ok, nosrc}, 1 reader, timeout 2, interval 1, clock 0..3 advanced by 1 or 2, '
+                             '<= 2 connection objects, Write ok / failing'))
+    for bug, viol in (('CloseReadCh', 'Invariant NoCrash is violated'), ('ReadIgnoresCtx', 'Invariant LegitPending is violated'),
+                      ('ServeIgnoresCtx', 'Invariant LegitPending is violated'), ('NoSourceCheck', 'Invariant LadderSound is violated')):
+        ms.append(dict(name='HttpTransport Bug_' + bug, spec='HttpTransport.tla', cfg=_C19_CLEAN + ' Bug = {"%s"}\n' % bug, workers=8,
+                       constants='Bug = {%s} re-enabled: TLC must report the violation (search stops at the counter-example)' % bug,
+                       expect_violation=viol))
+    return ms
+
+
+PROPS['C19'] = dict(
+    gen=x_transport.generate, trace_spec='TransportTrace.tla', own_attribution=True,
+    rule='per transport (channel cap 0/1/4 in a synctest bubble; websocket over real loopback with and without '
+         'compression; two GoatOverHttp instances over loopback; one GoatOverHttp with direct ServeHTTP calls and a fake '
+         'clock in a bubble): envelope values cycling through all 32 presence combinations x ids around 0 / 2^31 / 2^32 / '
+         '2^53 / 2^63 / 2^64-1 x body sizes 0..1 MiB x ASCII / non-ASCII / empty / 4 KiB strings x repeated key-values, '
+         'proxy_record, proxy_next, status details, in both directions with reads before / after / interleaved with the '
+         'writes; Read / Write / ServeHTTP blocked, or not yet started, when their context ends; raw input (text frames, '
+         'random bytes, mutated encodings) interleaved with valid envelopes; every ServeHTTP request shape; the cleaner '
+         'tick placed before the request / in the retrieve->send window (gate http.serve.window) / while the sender is '
+         'blocked / with a reader pending / after the delivery x 4 (timeout, interval) pairs x 8 advance amounts around '
+         'interval and timeout x {never active, active}; non-trivial = writes, injects or serves something',
+    nontrivial_ops=['w', 'raw', 'hs'],
+    assumptions=[
+        'TLC and the TLA+ CommunityModules (Json, IOUtils) are correct',
+        'equality of envelopes is decided on a digest computed by the harness (SHA-256 over the deterministic protobuf '
+        'encoding) for the value handed to Write and for the value returned by Read; the digest is trusted, the '
+        'specification contributes order, exactly-once, error-not-delivered, the 400 ladder, ctx and cleaner logic',
+        'whether raw bytes are a well-formed envelope is decided by the harness with proto.Unmarshal (the property words '
+        'it as "undecodable bytes")',
+        'Go testing/synctest quiescence for the channel and single-instance HTTP scenarios; the websocket and HTTP '
+        'loopback scenarios run in real time: an operation counts as pending after the harness has waited 2.5 s (ctx '
+        'cases) / 20 s (deliveries) for it',
+        'the websocket connection handed to NewGoatOverWebsocket has its read limit lifted (coder/websocket defaults to '
+        '32 KiB per message); a context that ends during a websocket Read / Write may close that connection (documented '
+        'coder/websocket behaviour), so later failures on it are accepted',
+        'a GoatOverHttp connection that never completed a Read nor started a Write has lastActivity 0 and is closed by '
+        'the first cleaner run; the specification follows the code here (recorded as an observation, not judged)',
+        'gate http.serve.window (build tag verif) only parks the goroutine between retrieve and the channel send',
+    ],
+    models=_c19_models(),
+)
